@@ -23,6 +23,8 @@ Records (whitespace tokens):
   nogood <tag> <atoms>             -> no solution satisfies all atoms
   infer <tag> <cons> <atoms:premises> none|<atom>
   minfer <tag> <atoms:premises> none|<atom>  -> premises → conclusion holds in every solution of the model
+  drcpw <step> :: <text>           -> the real writer's line equals the model's rendering and reads back
+  drcpr ok <step>|err :: <text>    -> the real reader's verdict / result equals the model's
   valsel <name> x <n v*n> <atom>   -> the decision of a value selector is in the model's support
   panic|nonterm|partial|bad|branchviolation …   -> FAIL (harness-side observation of a failure)
 -/
@@ -30,6 +32,7 @@ import Pumpkin.Spec.Basic
 import Pumpkin.Check.Oracle
 import Pumpkin.Model.Predicate
 import Pumpkin.Model.Branching
+import Pumpkin.Model.Drcp
 import Driver.Parse
 
 open Pumpkin Driver
@@ -55,6 +58,66 @@ def hasExclusivePair : List Atom → Bool
   | p :: ps => ps.any (fun q => p.mutex q) || hasExclusivePair ps
 
 def hasNegPair (as : List Atom) : Bool := as.any (fun p => as.contains p.neg)
+
+/-! DRCP lexing (glue): one line of text ↔ tokens -/
+open Pumpkin.Drcp in
+def isIdent (s : String) : Bool :=
+  match s.toList with
+  | [] => false
+  | c :: cs => (c.isAlpha || c == '_') && cs.all (fun d => d.isAlphanum || d == '_')
+
+open Pumpkin.Drcp in
+def lexTok (t : String) : Option Tok :=
+  if t == "i" || t == "n" || t == "d" || t == "c" || t == "UNSAT" then some (Tok.kw t)
+  else if t.startsWith "c:" then (t.drop 2).toString.toNat?.map Tok.tag
+  else if t.startsWith "l:" then (if isIdent (t.drop 2).toString then some (Tok.label (t.drop 2).toString) else none)
+  else if t.startsWith "+" then (t.drop 1).toString.toNat?.map (fun n => Tok.pnum (n : Int))
+  else t.toInt?.map Tok.num
+
+open Pumpkin.Drcp in
+def lexLine (line : String) : Option (List Tok) := (line.splitOn " ").mapM lexTok
+
+open Pumpkin.Drcp in
+def showTok : Tok → String
+  | .kw s => s
+  | .num z => toString z
+  | .pnum z => s!"+{z}"
+  | .tag n => s!"c:{n}"
+  | .label l => s!"l:{l}"
+
+open Pumpkin.Drcp in
+/-- structured step description written by the harness:
+`I id np p* (P p | -) (T t | -) (L label | -)`, `N id nl l* (H nh h* | -)`, `D id`, `U`, `O lit` -/
+def pStep : P Step := fun ts =>
+  match ts with
+  | "I" :: ts => do
+    let (id, ts) ← pNat ts
+    let (prem, ts) ← pList pInt ts
+    let (prop, ts) ← (match ts with
+      | "P" :: ts => do let (p, ts) ← pInt ts; pure (some p, ts)
+      | "-" :: ts => some (none, ts)
+      | _ => none)
+    let (tag, ts) ← (match ts with
+      | "T" :: ts => do let (t, ts) ← pNat ts; pure (some t, ts)
+      | "-" :: ts => some (none, ts)
+      | _ => none)
+    let (label, ts) ← (match ts with
+      | "L" :: l :: ts => some (some l, ts)
+      | "-" :: ts => some (none, ts)
+      | _ => none)
+    pure (Step.inference id prem prop tag label, ts)
+  | "N" :: ts => do
+    let (id, ts) ← pNat ts
+    let (lits, ts) ← pList pInt ts
+    let (hints, ts) ← (match ts with
+      | "H" :: ts => do let (hs, ts) ← pList pNat ts; pure (some hs, ts)
+      | "-" :: ts => some (none, ts)
+      | _ => none)
+    pure (Step.nogood id lits hints, ts)
+  | "D" :: ts => do let (id, ts) ← pNat ts; pure (Step.deletion id, ts)
+  | "U" :: ts => some (Step.unsat, ts)
+  | "O" :: ts => do let (l, ts) ← pInt ts; pure (Step.optimal l, ts)
+  | _ => none
 
 def setModel (m : Model) : St := { model := m, sols := solutions m }
 
@@ -192,6 +255,36 @@ def respond (st : St) (line : String) : St × Option String :=
         (st, some (if checkNogood st.sols (q.neg :: prem) then s!"ok minfer {tag}" else s!"FAIL minfer {tag} cuts-a-solution"))
       | _ => (st, some "FAIL minfer unparsed")
     | none => (st, some "FAIL minfer unparsed")
+  | "drcpw" :: _ =>
+    -- `drcpw <step> :: <line written by the real ProofWriter>`
+    match line.splitOn " :: " with
+    | [lhs, text] =>
+      match pStep ((tokens lhs).drop 1) with
+      | some (step, []) =>
+        let rendered := " ".intercalate ((Pumpkin.Drcp.render step).map showTok)
+        if rendered != text then (st, some s!"FAIL drcpw writer-differs-from-model model='{rendered}' real='{text}'")
+        else match lexLine text with
+          | some toks =>
+            if Pumpkin.Drcp.parse toks == some step then (st, some "ok drcpw")
+            else (st, some s!"FAIL drcpw model-reader-does-not-read-back '{text}'")
+          | none => (st, some s!"FAIL drcpw unlexable '{text}'")
+      | _ => (st, some "FAIL drcpw unparsed-step")
+    | _ => (st, some "FAIL drcpw unparsed")
+  | "drcpr" :: _ =>
+    -- `drcpr (ok <step> | err) :: <line given to the real ProofReader>`
+    match line.splitOn " :: " with
+    | [lhs, text] =>
+      let modelResult := (lexLine text).bind Pumpkin.Drcp.parse
+      match (tokens lhs).drop 1 with
+      | "err" :: _ =>
+        (st, some (if modelResult.isNone then "ok drcpr reject" else s!"FAIL drcpr real-reader-rejects-model-accepts '{text}'"))
+      | "ok" :: rest =>
+        match pStep rest with
+        | some (step, []) =>
+          (st, some (if modelResult == some step then "ok drcpr accept" else s!"FAIL drcpr reader-differs-from-model '{text}' model={repr modelResult}"))
+        | _ => (st, some "FAIL drcpr unparsed-step")
+      | _ => (st, some "FAIL drcpr unparsed")
+    | _ => (st, some "FAIL drcpr unparsed")
   | "valsel" :: name :: x :: rest =>
     match x.toNat?, pList pInt rest with
     | some x, some (vs, rest) =>
@@ -203,6 +296,8 @@ def respond (st : St) (line : String) : St × Option String :=
         else (st, some s!"FAIL valsel {name} decision-differs-from-model domain={vs} model={repr sup}")
       | _ => (st, some "FAIL valsel unparsed")
     | _, _ => (st, some "FAIL valsel unparsed")
+  | "litsok" :: _ => (st, some "ok litsok")
+  | "negok" :: _ => (st, some "ok negok")
   | "panic" :: _ | "nonterm" :: _ | "partial" :: _ | "bad" :: _ | "branchviolation" :: _ | "hang" :: _ =>
     (st, some s!"FAIL {line}")
   | _ => (st, some s!"FAIL unparsed {line}")
